@@ -174,8 +174,10 @@ def cmd_table():
         det = m.get("detected_by", {})
         caught = [p for p, r in det.items() if r["exit"] == 1 and r["violation_lines"]]
         missed = [p for p, r in det.items() if r["exit"] == 0]
-        rows.append(f"| {name} | {m.get('property')} | {m.get('summary', '')[:150]} | {', '.join(caught) or '-'} | {', '.join(missed) or '-'} |")
-    print("| seeded change | target | what it does | caught by (quick tier) | ran clean |\n|---|---|---|---|---|")
+        tests = m.get("confirmed", {}).get("baseline_broken_by_patch")
+        tests_s = "not run" if tests is None else ("216/216" if not tests else f"BROKE {len(tests)}")
+        rows.append(f"| {name} | {m.get('property')} | {m.get('summary', '')[:170].replace('|', '/')} | {', '.join(caught) or '-'} | {', '.join(missed) or '-'} | {tests_s} | {m.get('history', 'caught on first run')} |")
+    print("| seeded change | target | what it does | caught by (quick tier) | ran clean | baseline tests with patch | history |\n|---|---|---|---|---|---|---|")
     print("\n".join(rows))
 
 
